@@ -163,6 +163,17 @@ func C10(c *Ctx) error {
 									continue
 								}
 								op := map[string]any{"op": "call", "rpc": "Errs.Post", "req_type": pkg + ".PostReq", "req": jsonRaw([]byte(body)), "hook": hook, "handler": handler, "client_ct": ct}
+								// half of the client cases carry the content type as a PER-CALL option over a client
+								// whose default is the other one: the error body must be read with the call's codec
+								if rr.Bool() {
+									other := "application/json"
+									if ct == other {
+										other = "application/x-protobuf"
+									}
+									op["client_ct"] = other
+									op["call_ct"] = ct
+									ks.variant += "+per_call_ct"
+								}
 								if src != "header_violation" {
 									op["default_headers"] = [][2]string{{"X-Req", "1"}}
 								}
